@@ -312,10 +312,26 @@ def run(res, tier, seed):
         for modi in ('', ' with (header)', ' with (noheader)', ' WITH (headers)', ' With (noheaders)'):
             hcases.append({'frontend': 'hdrflag', 'names': [], 'rows': [], 'query': 'select NR, a1, a2' + modi, 'text': text, 'jtext': jtext, 'flag': flag, 'modi': modi, 'join': False})
             hcases.append({'frontend': 'hdrflag', 'names': [], 'rows': [], 'query': 'select NR, a1, b2 join JOINFILE on a1 == b1' + modi, 'text': text, 'jtext': jtext, 'flag': flag, 'modi': modi, 'join': True})
+            # NAMED variables of both tables: they exist exactly when the EFFECTIVE header flag (the modifier, else the caller's flag) says so — for the join table too
+            hcases.append({'frontend': 'hdrflag', 'names': [], 'rows': [], 'query': 'select NR, a.val' + modi, 'text': text, 'jtext': jtext, 'flag': flag, 'modi': modi, 'join': False, 'named': True})
+            for jq in ('select NR, a1, b.other join JOINFILE on a1 == b1', 'select NR, a.id, b["other"] join JOINFILE on a.id == b.id', "select NR, a1, b2 join JOINFILE on a1 == b['id']"):
+                hcases.append({'frontend': 'hdrflag', 'names': [], 'rows': [], 'query': jq + modi, 'text': text, 'jtext': jtext, 'flag': flag, 'modi': modi, 'join': True, 'named': True})
     houts = run_impl(hcases)
     res.evaluations += len(hcases)
     for c, o in zip(hcases, houts):
         eff = c['flag'] if c['modi'] == '' else ('no' not in c['modi'].lower())
+        if c.get('named'):
+            res.nontrivial.add(('hdr-named', c['flag'], c['modi'], c['query']))
+            if eff:
+                want = 'NR,val\n1,x\n2,y\n' if not c['join'] else 'NR,id,other\n1,1,J1\n2,2,J2\n'
+                bad = o.get('out') != want
+            else:
+                want = '<an error: without a header there are no column names>'
+                bad = 'err' not in o
+            if bad:
+                res.violations.append({'property': 'C09', 'impl': 'py', 'why': 'named variables x header flag x WITH modifier (input and join table)', 'query_py': c['query'], 'caller_flag': c['flag'],
+                                       'expected_output': want, 'observed': o, 'case_key': 'C09|hdr-named|%s|%s' % (c['flag'], c['query'])})
+            continue
         if not c['join']:
             want = 'NR,id,val\n1,1,x\n2,2,y\n' if eff else '1,id,val\n2,1,x\n3,2,y\n'
         else:
